@@ -108,11 +108,13 @@ pub fn peephole_compile<'a>(
   let label_count = label_count(&instructions);
   apply_stack_effects(&mut fun_builder, &mut instructions);
 
-  let mut label_offsets: collections::Vec<usize> = bumpalo::vec![in alloc; 0; label_count];
-
   if label_count > u16::MAX as usize {
-    todo!("Really handle this");
+    let mut errors = collections::Vec::new_in(alloc);
+    errors.push(Diagnostic::error().with_message("Too many jump targets in one function."));
+    return Err(errors);
   }
+
+  let mut label_offsets: collections::Vec<usize> = bumpalo::vec![in alloc; 0; label_count];
 
   compute_label_offsets(&instructions, &mut label_offsets[..label_count]);
 
